@@ -9,6 +9,7 @@
      round <d|r> <64|128> <p> <s> <n> <v>            -> <impl> <spec>        (ok:<scale>:<unscaled>)
      intfn <abs|sign|ceil|floor|trunc|round> <a>     -> <impl> <spec> <same 0/1>
      decfn <op> <v> <s>                              -> <impl> <spec> <same 0/1>
+     cmp <a> <b>                                     -> six 0/1 characters: a<b a<=b a=b a<>b a>=b a>b (definition only)
    outcome = ok:<v> | err | panic | fuel ;  fres = int:<n> | nz (negative zero) | bits:<b> | none *)
 let zs = zz_of_string
 let sz = string_of_zz
@@ -34,8 +35,8 @@ let bin_line fn m sg w a b =
   | "bitand" -> Printf.sprintf "%s %s" (out (impl_bitand sg w a b)) (out (spec_bitand sg w a b))
   | "bitor" -> Printf.sprintf "%s %s" (out (impl_bitor sg w a b)) (out (spec_bitor sg w a b))
   | "xor" -> Printf.sprintf "%s %s" (out (impl_xor sg w a b)) (out (spec_xor sg w a b))
-  | "shl" -> Printf.sprintf "%s %s" (out (impl_shl sg w a b)) (out (spec_shl sg w a b))
-  | "shr" -> Printf.sprintf "%s %s" (out (impl_shr sg w a b)) (out (spec_shr sg w a b))
+  | "shl" -> Printf.sprintf "%s %s" (out (impl_shl sg w a b)) (out (spec_shl_exec sg w a b))
+  | "shr" -> Printf.sprintf "%s %s" (out (impl_shr sg w a b)) (out (spec_shr_exec sg w a b))
   | s -> failwith ("fn " ^ s)
 
 let numfn () =
@@ -69,6 +70,8 @@ let numfn () =
          let i = impl_dec_fn (p_fop op) (zs v) (zs s) and sp = spec_dec_fn (p_fop op) (zs v) (zs s) in
          let same = match i, sp with Some x, Some y -> fres_eqb x y | None, None -> true | _ -> false in
          Printf.printf "%s %s %s\n" (fres_opt i) (fres_opt sp) (b01 same)
+       | ["cmp"; a; b] ->
+         print_endline (String.concat "" (List.map (fun op -> b01 (spec_cmp op (zs a) (zs b))) [CLt; CLe; CEq; CNe; CGe; CGt]))
        | [] -> print_endline ""
        | _ -> failwith ("bad line " ^ line)
      done
